@@ -49,7 +49,11 @@ LEVEL_TEXT = ('Theorems about the Lean model of parse_script (line splitter + co
               'metamorphic oracles (prepend shifts line number, marker lines survive) run on the implementation; the `forms` stream hands the '
               'same texts over in every input form (string, str subclass, list/tuple/deque/dict keys, generator, iterator, map, bare __iter__, '
               'multi-line chunks) one call after the other in one process: same outcome as the one string, caller object untouched, same '
-              'call again same outcome - a failure is reported with the shortest call history that shows it in a NEW process.')
+              'call again same outcome - a failure is reported with the shortest call history that shows it in a NEW process; the `layouts` '
+              'stream crosses every diagnostic kind with every start line (omitted, 1, 0, negative, > 2**31) and every layout of the offending '
+              'logical line (continued over several physical lines, comments inside the continuation, lone backslash in front), the '
+              'deferred diagnostics (block / function left open) included: error, joined line text and first-physical-line number are known '
+              'by construction and from the one-line spelling.')
 LEVEL_NOTE = ('Trusted: Lean kernel; extract.py; correspondence harness. Modelled not verified: CPython re. Python recursion limit '
               '(nesting > ~300 in one expression raises RecursionError) is outside the model; generators keep nesting <= 50. '
               'Token SIZES are not bounded: the scale families run every token class (digits of a literal, identifiers, strings, blanks, '
@@ -78,8 +82,9 @@ def parse_outcome(parser, text, start=1):
         return 'host', type(exc).__name__ + ': ' + str(exc)[:120]
 
 
-def logical_lines(text):
-    """Independent reading of the layout rules: [(first physical line index, joined text)] ; None if a continuation dangles."""
+def logical_lines(text, dangling=False):
+    """Independent reading of the layout rules: [(first physical line index, joined text)] ; None if a continuation dangles
+    (dangling=True: the dangling logical line is the last entry instead)."""
     out = []
     pending = None
     for ix, raw in enumerate(re.split(r'\r?\n', text)):
@@ -98,7 +103,7 @@ def logical_lines(text):
                 out.append((pending[0], ' '.join(pending[1])))
                 pending = None
     if pending is not None:
-        return None
+        return out + [(pending[0], ' '.join(pending[1]))] if dangling else None
     return out
 
 
@@ -203,6 +208,13 @@ def check_error(ctx, parser, text, err, start, what):
     if err['lineNumber'] is None:
         ctx.witness('error-has-line-number', {'text': text, 'start': start}, 'a 1-based line number', err, what=what)
         return False
+    if ll is None and err['error'] == 'Unterminated line continuation':
+        # the dangling logical line itself: its first physical line's number, the pieces joined, the column just past it
+        ix, line = logical_lines(text, dangling=True)[-1]
+        want = {'lineNumber': start + ix, 'line': line, 'column': len(line) + 1}
+        if want != {f: err[f] for f in want}:
+            ctx.witness('unterminated-continuation-position', {'text': text, 'start': start}, want, err, what=what)
+            ok = False
     if ll is not None:
         cands = {start + ix: line for ix, line in ll}
         if err['lineNumber'] not in cands:
@@ -623,6 +635,8 @@ def streams(ctx):
     # input forms and call histories first: a witness of that stream carries the calls made before it and was seen again in a
     # NEW process (a failure that needs a history met below, in the middle of this process, could not be replayed)
     forms_stream(ctx, parser, cases)
+    # every diagnostic kind x every start line x every layout of the offending logical line
+    layouts_stream(ctx, parser)
     # correspondence with the Lean parser model (when the driver is built)
     resps = None
     if ctx.driver is not None:
@@ -925,6 +939,438 @@ def forms_stream(ctx, parser, cases):
         ctx.notes.append(f'forms: {reported} calls failed an oracle; the first 3 are reported as witnesses')
 
 
+# ---------------------------------------------------------------------------------------------------------------------
+# layouts: every diagnostic kind x every start line x every layout of the offending LOGICAL line. A statement or block
+# header may be written over several physical lines (backslash continuation, comment / blank lines in between, a lone
+# backslash line in front); the diagnostics that are raised LATER than the line they point at (Missing endif / endwhile /
+# endfor at end of input and at endfunction, Missing endfunction) have to remember that line. Whatever the layout, the
+# error carries the JOINED logical line, the number of its FIRST physical line offset by the caller's start line (any
+# integer: omitted, 1, 0, negative, large), the column it has in the one-line spelling, and the message shows exactly that.
+# Expected values are known BY CONSTRUCTION (the scenario is built around the offending line) and, independently, from the
+# one-line spelling of the same program (metamorphic).
+# ---------------------------------------------------------------------------------------------------------------------
+
+LAY_OPERANDS = ['a', 'b1', 'cnt', 'i', '10', '2.5', "'s t'", '"q r"', 'fn(a, b)', 'arrayNew(1, 2, 3)', '(a + 1)', '!c', '-x',
+                "objectGet(o, 'k')", '[v w]', 'null', 'true']
+LAY_OPS = ['+', '-', '*', '/', '%', '**', '==', '!=', '<', '<=', '>', '>=', '&&', '||']
+LAY_NAMES = ['x', 'total', 'v_1', 'res']
+EXPR_ERRORS = ['Syntax error', 'Unmatched parenthesis']
+LAY_FAULTS = {
+    'extra-close': lambda e: e + ' )',
+    'open-paren': lambda e: '( ' + e,
+    'dangling-op': lambda e: e + ' +',
+    'two-operands': lambda e: e + ' b2',
+    'bad-char': lambda e: e + ' @ 1',
+    'fault-first': lambda e: ') ' + e,
+    'fault-middle': lambda e: e + ' ) + ' + e,
+}
+LAY_STMTS = {
+    'assign': 'total = {e}', 'expr-stmt': 'arrayPush(arr, {e})', 'if': 'if {e}:', 'elif': 'elif {e}:', 'while': 'while {e}:',
+    'for': 'for value, ix in {e}:', 'jumpif': 'jumpif ({e}) lbl3', 'return': 'return {e}',
+}
+LAY_NOISE = ['z = (1 +', 'endif', 'endwhile', 'endfor', 'endfunction', 'else:', 'break', 'if q:', 'function g(:', 'w = 1', 'z = 1 )', '\\']
+LAY_FILLER = ['', '# note', '   ', '\t# c \\', '#', '  # if a:']
+CULPRIT_LAYOUTS = ['one', 'cont2', 'cont-all', 'cont-comments', 'cont-blanks', 'lead-backslash']
+LAY_STARTS = [None, 1, 0, -1, -40, 2, 41, 2 ** 31 + 5]
+LAY_FORMS = ['str', 'str', 'str-crlf', 'str-mixed', 'list', 'tuple', 'generator', 'iterator', 'only-iter', 'deque', 'map']
+
+
+def lay_expr(rng, n=None):
+    n = n or rng.randint(2, 5)
+    out = rng.choice(LAY_OPERANDS)
+    for _ in range(n - 1):
+        out += ' ' + rng.choice(LAY_OPS) + ' ' + rng.choice(LAY_OPERANDS)
+    return out
+
+
+def lay_header(rng, kind):
+    if kind == 'if':
+        return 'if ' + lay_expr(rng) + rng.choice([':', ':', ' :'])
+    if kind == 'while':
+        return 'while ' + lay_expr(rng) + rng.choice([':', ':', ' :'])
+    if kind == 'for':
+        return rng.choice(['for v in ', 'for value, ix in ', 'for value , ix in ']) + lay_expr(rng) + ':'
+    return rng.choice(['function foo(a, b):', 'async function bar(x, y, rest...):', 'function baz():', 'function qux( a , b ... ) :',
+                       'async function quux(a):'])
+
+
+def lay_simple(rng):
+    e = lay_expr(rng)
+    n = rng.randint(1, 9)
+    return rng.choice([
+        f'{rng.choice(LAY_NAMES)} = {e}', f'{rng.choice(LAY_NAMES)} = {e}', f'systemLog({e})', f'arrayPush(arr, {e})', f'lbl{n}:',
+        f'jump lbl{n}', f'jumpif ({e}) lbl{n}', 'include <lib one.bare>', "include 'dir a/b.bare'", f'return {e}', 'return'])
+
+
+def lay_balanced(rng, n, depth, in_func, in_loop):
+    """n complete (balanced) statements as logical lines."""
+    out = []
+    for _ in range(n):
+        r = rng.random()
+        if depth <= 0 or r < 0.55:
+            out.append(rng.choice(['break', 'continue']) if in_loop and rng.random() < 0.15 else lay_simple(rng))
+        elif r < 0.72:
+            out.append(lay_header(rng, 'if'))
+            out += lay_balanced(rng, rng.randint(0, 2), depth - 1, in_func, in_loop)
+            if rng.random() < 0.4:
+                out.append('elif ' + lay_expr(rng) + ':')
+                out += lay_balanced(rng, rng.randint(0, 1), depth - 1, in_func, in_loop)
+            if rng.random() < 0.4:
+                out.append(rng.choice(['else:', 'else :']))
+                out += lay_balanced(rng, rng.randint(0, 1), depth - 1, in_func, in_loop)
+            out.append('endif')
+        elif r < 0.82:
+            out.append(lay_header(rng, 'while'))
+            out += lay_balanced(rng, rng.randint(0, 2), depth - 1, in_func, True)
+            out.append('endwhile')
+        elif r < 0.92:
+            out.append(lay_header(rng, 'for'))
+            out += lay_balanced(rng, rng.randint(0, 2), depth - 1, in_func, True)
+            out.append('endfor')
+        elif not in_func:
+            out.append(lay_header(rng, 'function'))
+            out += lay_balanced(rng, rng.randint(0, 2), depth - 1, True, False)
+            out.append('endfunction')
+        else:
+            out.append(lay_simple(rng))
+    return out
+
+
+class Scenario:
+    """Logical lines of one program + the lines a diagnostic may point at: cands = [(logical index, [allowed errors], column)],
+    column = 1 (structure error) | 'end' (unterminated continuation) | None (expression error: the one-line spelling decides)."""
+
+    def __init__(self, rng, kind):
+        self.rng, self.kind, self.lines, self.cands = rng, kind, [], []
+        self.dangling = None     # logical index of a line whose last physical line ends in a backslash
+        self.in_func = self.in_loop = False
+        self.opened = []         # [(kind, logical index)] of the blocks open at this point
+        self.lines += lay_balanced(rng, rng.randint(0, 3), 2, False, False)
+
+    def open(self, kinds, else_ok=True):
+        for k in kinds:
+            self.opened.append((k, len(self.lines)))
+            self.lines.append(lay_header(self.rng, k))
+            if k == 'function':
+                self.in_func, self.in_loop = True, False
+            elif k != 'if':
+                self.in_loop = True
+            self.body(2)
+            if k == 'if':               # the open `if` may already be in a later branch
+                for _ in range(self.rng.choice([0, 0, 0, 1, 2])):
+                    self.lines.append('elif ' + lay_expr(self.rng) + ':')
+                    self.body(1)
+                if else_ok and self.rng.random() < 0.25:
+                    self.lines.append(self.rng.choice(['else:', 'else :']))
+                    self.body(1)
+
+    def body(self, top):
+        self.lines += lay_balanced(self.rng, self.rng.randint(0, top), 1, self.in_func, self.in_loop)
+
+    def culprit(self, line, errors, column=1):
+        self.cands.append((len(self.lines), errors, column))
+        self.lines.append(line)
+
+    def noise(self):
+        for _ in range(self.rng.randint(0, 3)):
+            self.lines.append(self.rng.choice(LAY_NOISE) if self.rng.random() < 0.5 else lay_simple(self.rng))
+
+    def open_cands(self, kinds=None):
+        for k, ix in self.opened:
+            if kinds is None or k in kinds:
+                self.cands.append((ix, ['Missing end' + k + ' statement'], 1))
+
+
+def lay_outer(rng, function=True):
+    """A random stack of blocks to be in (at most one function)."""
+    kinds = [rng.choice(['if', 'while', 'for']) for _ in range(rng.choice([0, 0, 1, 1, 2]))]
+    if function and rng.random() < 0.35:
+        kinds.insert(rng.randint(0, len(kinds)), 'function')
+    return kinds
+
+
+def lay_blocks(rng):
+    return [rng.choice(['if', 'while', 'for']) for _ in range(rng.choice([0, 0, 1, 2]))]
+
+
+def scenario(rng, kind):
+    sc = Scenario(rng, kind)
+    what, _, arg = kind.partition(':')
+    if what == 'expr':
+        sc.open(lay_outer(rng) + (['if'] if arg == 'elif' else []), else_ok=(arg != 'elif'))
+        e = lay_expr(rng, rng.choice([None, None, None, None, rng.randint(30, 45)]))
+        sc.culprit(LAY_STMTS[arg].replace('{e}', LAY_FAULTS[rng.choice(sorted(LAY_FAULTS))](e)), EXPR_ERRORS, None)
+        sc.noise()
+    elif what == 'missing-end-eof':                 # a block left open at end of input (inside whatever else is open)
+        sc.open(lay_outer(rng) + [arg])
+        sc.open_cands()
+    elif what == 'missing-end-endfunction':         # a block left open at the endfunction of its function
+        sc.open(lay_blocks(rng)[:1] + ['function'])
+        mark = len(sc.opened)
+        sc.open(lay_blocks(rng)[:1] + [arg])
+        sc.cands += [(ix, ['Missing end' + k + ' statement'], 1) for k, ix in sc.opened[mark:]]
+        sc.lines.append('endfunction')
+        sc.noise()
+    elif what == 'missing-endfunction':
+        sc.open(['function'])
+        sc.open_cands()
+    elif what == 'nested-function':
+        sc.open(lay_blocks(rng)[:1] + ['function'] + lay_blocks(rng)[:1])
+        sc.culprit(lay_header(rng, 'function'), ['Nested function definition'])
+        sc.noise()
+    elif what == 'no-matching-function':
+        sc.open(lay_blocks(rng))
+        sc.culprit('endfunction', ['No matching function definition'])
+        sc.noise()
+    elif what == 'no-matching-if':                  # elif / else / endif with no `if` innermost (inside the function, if any)
+        sc.open(rng.choice([[], lay_blocks(rng) + [rng.choice(['while', 'for'])], lay_blocks(rng) + ['if', 'function'],
+                            ['if', 'function', rng.choice(['while', 'for'])]]))
+        line = {'elif': 'elif ' + lay_expr(rng) + ':', 'else': rng.choice(['else:', 'else :']), 'endif': 'endif'}[arg]
+        sc.culprit(line, ['No matching if statement'])
+        sc.noise()
+    elif what in ('elif-after-else', 'multiple-else'):
+        sc.open(lay_outer(rng) + ['if'], else_ok=False)
+        sc.lines.append(rng.choice(['else:', 'else :']))
+        sc.body(2)
+        if what == 'multiple-else':
+            sc.culprit(rng.choice(['else:', 'else :']), ['Multiple else statements'])
+        else:
+            sc.culprit('elif ' + lay_expr(rng) + ':', ['Elif statement following else statement'])
+        sc.noise()
+    elif what == 'no-matching-loop':                # endwhile / endfor with no such loop innermost
+        other = 'for' if arg == 'while' else 'while'
+        sc.open(rng.choice([[], lay_blocks(rng) + [rng.choice(['if', other])], lay_blocks(rng) + [arg, 'function'],
+                            [arg, 'function', rng.choice(['if', other])]]))
+        sc.culprit('end' + arg, ['No matching ' + arg + ' statement'])
+        sc.noise()
+    elif what == 'outside-loop':                    # break / continue with no loop around (inside the function, if any)
+        sc.open(rng.choice([[], ['if'], ['if', 'if'], lay_blocks(rng) + [rng.choice(['while', 'for']), 'function'],
+                            [rng.choice(['while', 'for']), 'function', 'if']]))
+        sc.culprit(arg, [arg.capitalize() + ' statement outside of loop'])
+        sc.noise()
+    elif what == 'unterminated':                    # the last logical line dangles; the blocks still open are in error too
+        sc.open(lay_outer(rng))
+        sc.dangling = len(sc.lines)
+        sc.culprit(rng.choice([lay_simple(rng), lay_header(rng, rng.choice(['if', 'while', 'for', 'function']))]),
+                   ['Unterminated line continuation'], 'end')
+        sc.open_cands()
+    elif what == 'valid':
+        sc.body(3)
+        if rng.random() < 0.5:
+            sc.open(lay_outer(rng))
+            while sc.opened:
+                kinds = [k for k, _ in sc.opened]           # what is still open decides what a body may hold
+                sc.in_func = 'function' in kinds
+                sc.in_loop = any(k in ('while', 'for') for k in (kinds[kinds.index('function') + 1:] if sc.in_func else kinds))
+                sc.body(1)
+                sc.lines.append('end' + sc.opened.pop()[0])
+    else:
+        raise ValueError(kind)
+    return sc
+
+
+LAYOUT_KINDS = (['expr:' + s for s in LAY_STMTS] +
+                ['missing-end-eof:' + k for k in ('if', 'while', 'for')] + ['missing-end-endfunction:' + k for k in ('if', 'while', 'for')] +
+                ['missing-endfunction', 'nested-function', 'no-matching-function'] + ['no-matching-if:' + k for k in ('elif', 'else', 'endif')] +
+                ['elif-after-else', 'multiple-else', 'no-matching-loop:while', 'no-matching-loop:for', 'outside-loop:break',
+                 'outside-loop:continue', 'unterminated', 'valid'])
+
+
+def lay_blanks(rng, top):
+    return ''.join(rng.choice(' \t') for _ in range(rng.randint(0, top)))
+
+
+def lay_render(rng, line, mode, dangling=False):
+    """One logical line in a layout -> (physical lines, the logical line they join to, the layout really used).
+    The line is cut only at a single blank between two non-blank characters: the joiner puts one blank back."""
+    pts = [i for i in range(1, len(line) - 1) if line[i] == ' ' and line[i - 1] not in ' \t\\' and line[i + 1] not in ' \t#']
+    if mode != 'one' and not pts:
+        mode = 'lead-backslash' if mode != 'cont2' else 'one'
+    if mode == 'one':
+        cuts = []
+    elif mode == 'cont2':
+        cuts = [rng.choice(pts)]
+    elif mode == 'cont-all':
+        cuts = sorted(rng.sample(pts, min(len(pts), 12)))
+    else:
+        cuts = sorted(rng.sample(pts, min(len(pts), rng.randint(0 if mode == 'lead-backslash' else 1, 3))))
+    pieces, prev = [], 0
+    for c in cuts:
+        pieces.append(line[prev:c])
+        prev = c + 1
+    pieces.append(line[prev:])
+    joined = line
+    if mode == 'lead-backslash':
+        pieces = [lay_blanks(rng, 2)] + [pieces[0].lstrip()] + pieces[1:]
+        joined = ' ' + line.strip()
+    wide = 4 if mode == 'cont-blanks' else 1
+    phys = []
+    for j, piece in enumerate(pieces):
+        last = j == len(pieces) - 1
+        s = piece if j == 0 else lay_blanks(rng, 2 * wide) + piece
+        if not last or dangling:
+            s += lay_blanks(rng, wide) + '\\' + lay_blanks(rng, wide)
+        phys.append(s)
+        if not last and mode == 'cont-comments':
+            phys += [rng.choice(LAY_FILLER) for _ in range(rng.randint(1, 2))]
+    return phys, joined, mode
+
+
+def lay_case(rng, kind, mode, start):
+    """Scenario + layout + input form -> the case (a JSON object that carries everything the judge needs)."""
+    sc = scenario(rng, kind)
+    marked = {c[0] for c in sc.cands}
+    phys, first, oneline = [], [], []
+    used = mode
+    for ix, line in enumerate(sc.lines):
+        line = rng.choice(['', '', '  ', '    ', '\t', '      ']) + line
+        if rng.random() < 0.25:
+            phys += [rng.choice(LAY_FILLER) for _ in range(rng.randint(1, 2))]
+        m = mode if ix in marked else rng.choice(['one', 'one', 'one', 'one'] + CULPRIT_LAYOUTS[1:])
+        if line.strip() == '\\':
+            m = 'one'
+        p, joined, m = lay_render(rng, line, m, dangling=(ix == sc.dangling))
+        if ix in marked:
+            used = m
+        first.append(len(phys))
+        phys += p
+        oneline.append(joined + (' \\' if ix == sc.dangling else ''))
+    if sc.dangling is not None or rng.random() < 0.3:
+        phys += [rng.choice(LAY_FILLER) for _ in range(rng.randint(0 if sc.dangling is not None else 1, 2))]
+    form = rng.choice(LAY_FORMS)
+    if form.startswith('str'):
+        seps = {'str': ['\n'], 'str-crlf': ['\r\n'], 'str-mixed': ['\n', '\r\n']}[form]
+        chunks = [''.join(p + (rng.choice(seps) if j < len(phys) - 1 else '') for j, p in enumerate(phys))]
+        form = 'str'
+    else:
+        chunks = regroup(rng, phys)
+    base = 1 if start is None else start
+    expect = None
+    if sc.cands:
+        expect = {'candidates': [{'lineNumber': base + first[ix], 'line': oneline[ix][:-2] if ix == sc.dangling else oneline[ix], 'errors': errs,
+                                  'column': col} for ix, errs, col in sc.cands]}
+    return {'text': '\n'.join(chunks), 'chunks': chunks, 'form': form, 'start': start, 'kw': start is not None and rng.random() < 0.3,
+            'kind': kind, 'layout': used, 'oneline': oneline, 'first': first, 'expect': expect}
+
+
+def lay_fields(res):
+    return {f: res[f] for f in ('error', 'line', 'column', 'lineNumber')}
+
+
+def layout_failures(parser, case):
+    """-> [(oracle, expected, actual)] for one case of the layouts stream (empty: the case behaves)."""
+    base = 1 if case['start'] is None else case['start']
+    what, res = call_outcome(parser, make_arg(case['form'], case['chunks']), base, case['kw'])
+    if what == 'host':
+        return [('only-parser-error-escapes', 'BareScriptParserError or a model', res)]
+    bad = []
+    expect = case['expect']
+    ref_what, ref = parse_outcome(parser, '\n'.join(case['oneline']))
+    if expect is None:
+        if what != 'ok':
+            return [('layout-keeps-acceptance', 'accepted (a valid program, whatever its layout)', lay_fields(res))]
+        if ref_what == 'ok' and ref != res:
+            bad.append(('layout-same-as-one-line-spelling', fw.shorten(ref, 1500), fw.shorten(res, 1500)))
+        return bad
+    if what == 'ok':
+        return [('layout-diagnostic-reported', expect['candidates'], 'accepted')]
+    got = lay_fields(res)
+    cand = [c for c in expect['candidates'] if c['lineNumber'] == res['lineNumber']]
+    if not cand:
+        bad.append(('layout-error-line-number', expect['candidates'], got))
+    else:
+        cand = cand[0]
+        if res['error'] not in cand['errors']:
+            bad.append(('layout-error-kind', cand, got))
+        if res['line'] != cand['line']:
+            bad.append(('layout-error-line-text', cand, got))
+        column = {1: 1, 'end': len(cand['line']) + 1}.get(cand['column'])
+        if column is not None and res['column'] != column:
+            bad.append(('layout-error-column', dict(cand, column=column), got))
+    # the one-line spelling of the same program (one physical line per logical line, start line 1) gives the same error,
+    # its number mapped to the first physical line of that logical line and offset by the start line
+    if ref_what == 'err' and ref['lineNumber'] is not None and 1 <= ref['lineNumber'] <= len(case['first']):
+        want = dict(lay_fields(ref), lineNumber=base + case['first'][ref['lineNumber'] - 1])
+        if want != got:
+            bad.append(('layout-same-as-one-line-spelling', want, got))
+    elif ref_what != 'err':
+        bad.append(('layout-same-as-one-line-spelling', 'accepted' if ref_what == 'ok' else ref, got))
+    # the formatted message: '<error>, line number N:' / the line / the caret under the column
+    if isinstance(res['lineNumber'], int) and 1 <= res['column'] <= len(res['line']) + 1:
+        head = f"{res['error']}, line number {res['lineNumber']}:"
+        msg = res['message'].split('\n')
+        if msg[0] != head:
+            bad.append(('layout-message', head, res['message']))
+        elif len(res['line']) <= 120 and res['message'] != f"{head}\n{res['line']}\n{' ' * (res['column'] - 1)}^\n":
+            bad.append(('layout-message', f"{head}\n{res['line']}\n{' ' * (res['column'] - 1)}^\n", res['message']))
+    # every oracle on a reported error, from the text alone
+    probe = fw.Ctx('C06', 'quick', 0)
+    check_error(probe, parser, case['text'], res, base, 'layouts')
+    bad += [(w['oracle'], w['expected'], w['actual']) for w in probe.witnesses]
+    return bad
+
+
+def start_tag(start):
+    return 'start:' + ('omitted' if start is None else 'one' if start == 1 else 'zero' if start == 0 else 'negative' if start < 0 else
+                       'large' if start > 2 ** 30 else 'offset')
+
+
+def layouts_stream(ctx, parser):
+    rng = ctx.rng('layouts')
+    st = ctx.stream('layouts', 'every diagnostic kind (expression fault in each of the 8 statement kinds with an expression; Missing endif / endwhile / '
+                               'endfor at end of input and at endfunction; Missing endfunction; nested function; endfunction / elif / else / endif / '
+                               'endwhile / endfor with nothing to match - also across a function boundary; elif after else; two else; break / continue '
+                               'outside a loop; unterminated continuation; plus valid programs) x every start line (omitted, 1, 0, negative, offset, '
+                               '> 2**31; positional or keyword) x every layout of the offending logical line (one physical line; continued over 2 / '
+                               'many lines; comment, blank and commented-backslash lines inside the continuation; blanks and tabs around the backslash; '
+                               'a lone backslash line in front), inside random open blocks, behind random balanced statements that are themselves '
+                               'continued, \\n / \\r\\n / mixed, as one string or as chunks in every iterable form. Expected error, line text and '
+                               'line number are known by construction, the column from the one-line spelling; the model gets the same chunks '
+                               '(start < 0: the model takes naturals, it is asked with start 0 and the difference is added - theorem '
+                               'start_line_offsets). non-trivial = the offending line spans >= 2 physical lines or the start line is not 1')
+    cases = []
+    starts = LAY_STARTS + [rng.randint(-1000, -2), rng.randint(3, 100000)] * ctx.scale(0, 1)
+    for _ in range(ctx.scale(1, 12)):
+        for kind in LAYOUT_KINDS:
+            for start in starts:
+                for mode in CULPRIT_LAYOUTS:
+                    cases.append(lay_case(rng, kind, mode, start))
+    resps = None
+    if ctx.driver is not None:
+        to_model = [ix for ix, c in enumerate(cases) if model_can(c['text'])]
+        resps = dict(zip(to_model, model_batch(ctx, [{'op': 'parse', 'chunks': cases[ix]['chunks'],
+                                                       'start': max(0, 1 if cases[ix]['start'] is None else cases[ix]['start'])}
+                                                      for ix in to_model])))
+    reported, failed = {}, []
+    for ix, case in enumerate(cases):
+        base = 1 if case['start'] is None else case['start']
+        bad = layout_failures(parser, case)
+        what, res = call_outcome(parser, make_arg(case['form'], case['chunks']), base, case['kw'])
+        st.case({k: case[k] for k in ('chunks', 'form', 'start', 'kw')}, nontrivial=(case['layout'] != 'one' or case['start'] not in (None, 1)),
+                tags=['kind:' + case['kind'], 'layout:' + case['layout'], start_tag(case['start']), 'form:' + case['form'],
+                      what + (':' + res['error'] if what == 'err' else '')])
+        if bad:
+            failed.append((len(case['text']), ix, bad))
+        if resps is not None and ix in resps and what != 'host':
+            model = resps[ix]
+            if what == 'ok':
+                impl = {'ok': canon_impl(res)}
+                model = {'ok': canon_model(model.get('ok'))} if 'ok' in model else model
+            else:
+                impl = lay_fields(res)
+                if base < 0 and isinstance(impl['lineNumber'], int):
+                    impl['lineNumber'] -= base
+            ctx.compare('parse-layouts', {k: case[k] for k in ('chunks', 'start')}, impl, model)
+    # the shortest failing cases first (a witness is read by a person), at most 3 per oracle
+    for _, ix, bad in sorted(failed):
+        oracle, expected, actual = bad[0]
+        reported[oracle] = reported.get(oracle, 0) + 1
+        if reported[oracle] <= 3:
+            ctx.witness(oracle, cases[ix], expected, actual, all_failed_oracles=sorted({b[0] for b in bad}))
+    if any(n > 3 for n in reported.values()):
+        ctx.notes.append(f'layouts: failing cases per oracle {reported}; the 3 shortest of each are reported as witnesses')
+
+
 SESSION_ORACLES = ('input-form-same-outcome', 'input-object-left-alone', 'repeat-call-same-outcome')
 
 
@@ -955,6 +1401,8 @@ def replay(witness):
     inp = witness['input']
     if 'calls' in inp:
         return replay_session(parser, witness)
+    if 'expect' in inp:                 # a case of the layouts stream carries its own expectation
+        return any(b[0] == witness['oracle'] for b in layout_failures(parser, inp))
     what, res = parse_outcome(parser, inp['text'], inp.get('start', 1))
     probe = fw.Ctx('C06', 'quick', 0)
     if what == 'host':
